@@ -2,7 +2,7 @@
    configuration).  Only pinned statements, closed by [exact lemma], with Print Assumptions. *)
 From Coq Require Import List NArith Bool.
 From FT Require Import Model.Base Model.Local Model.Records Model.Spsc Model.Collector Model.System
-     Proofs.SpscProofs Proofs.CollectorProofs Proofs.RecordsProofs Proofs.ApiProofs Proofs.DeliveryProofs Proofs.SystemDeliveryProofs Proofs.DrainProofs Proofs.EndToEndProofs.
+     Proofs.SpscProofs Proofs.CollectorProofs Proofs.RecordsProofs Proofs.ApiProofs Proofs.DeliveryProofs Proofs.SystemDeliveryProofs Proofs.DrainProofs Proofs.EndToEndProofs Proofs.HistoryProofs.
 From Coq Require Import Permutation.
 Import ListNotations.
 Open Scope N_scope.
@@ -197,6 +197,31 @@ Theorem C01_finished_span_is_reported :
       In (ti_trace it, r_id (sp_raw sp), ti_parent it) (map core3 recs).
 Proof. exact finished_span_is_reported. Qed.
 
+(* OVER WHOLE HISTORIES, default configuration.  [popped_submits s h]: the SubmitSpans commands
+   the collector pops out of the rings along the history h (by its pops and by the pops of its
+   abandonment checks); [reported]: the records of all reports along h.  For EVERY history from
+   the initial state in which only the default configuration is installed: what has been
+   reported so far, plus what the batch being put together still holds, is -- as a multiset of
+   (trace, span id, parent) -- exactly one record per span per token item of what has been
+   popped so far.  Nothing is reported twice, nothing that was not submitted, and nothing
+   popped is lost (a ring is a list: a command is popped once). *)
+Theorem C01_history_reports_exactly_what_was_popped :
+  forall dbg ringcap stackcap qcap h,
+    default_only h ->
+    let r := run (sys_init dbg ringcap stackcap qcap) h in
+    Permutation (reported (snd r) ++ cores_of (b_submit (s_batch (fst r))))
+                (cores_of (popped_submits (sys_init dbg ringcap stackcap qcap) h)).
+Proof. exact reachable_history_accounts. Qed.
+
+Example C01_history_example :
+  let h := [AInstall false; ASpawn 1 1 0; ACall 1 (KRoot 1 2 77 5 true); APush 1; ACall 1 (KDropSpan 1); APush 1; APush 1;
+            ACBegin; ACPop; ACPop; ACPop; ACPop; ACCheck; ACProcess; ACBegin; ACPop; ACCheck; ACProcess] in
+  let r := run (sys_init false 8 16 16) h in
+  reported (snd r) = [(77, 4294967297, 5)] /\
+  cores_of (popped_submits (sys_init false 8 16 16) h) = [(77, 4294967297, 5)] /\
+  b_submit (s_batch (fst r)) = [].
+Proof. vm_compute. repeat split; reflexivity. Qed.
+
 (* non-vacuity of the end-to-end theorem: a history that meets every hypothesis (root created
    and finished on thread 1, two pushes, a cycle), and what the theorem then promises *)
 Example C01_finished_span_example :
@@ -243,3 +268,4 @@ Print Assumptions C01_landed_command_is_reported_within_two_cycles.
 Print Assumptions C01_commands_of_a_call_land.
 Print Assumptions C01_tracked_in_every_reachable_state.
 Print Assumptions C01_finished_span_is_reported.
+Print Assumptions C01_history_reports_exactly_what_was_popped.
